@@ -18,11 +18,22 @@ package channelappend_test
 // (caller commands only; every reply and observation is computed by TLC, sim stage "scen", read
 // from VERIF_BEH_DIR/beh_scen.jsonl) are replayed first, then the seeded random schedules.
 //
+// Two environment steps of the specification are driven through the ports as well: CancelItem (the
+// submitter's SendBatchItem.Context of an item is cancelled while its request is parked at the
+// Appender) and Reclaim (with WriterIdleRetention = 1ns in half of the schedules, a send to a fresh
+// auxiliary channel of the shard -- answered by the fakes at once, kept out of every record --
+// makes the shard run its idle-writer cleanup; the specification allows it to drop only writers
+// that own nothing, so a writer dropped with an append in flight shows up as a request the
+// specification does not issue / as sequences out of submission order).
+//
 // Method B (code -> spec): a seeded driver runs several goroutines of SubmitLocal / Router.SendBatch
 // traffic over several channels (retries with the same and with a changed payload, duplicates
 // inside a batch, random append failures and latencies, Stop with short and long deadlines at
 // random points, a second Stop) with the fakes in RECORDING mode; every event gets one global
-// sequence number; TLC validates the histories against Trace.tla.
+// sequence number; TLC validates the histories against Trace.tla.  The recording Appender also
+// cancels item contexts while it refuses a request (event Cancel), and a third of the histories run
+// with WriterIdleRetention = 2 ms, storage stalls of 8 ms and a prober sending to fresh sibling
+// channels of the single shard (all SubmitLocal calls of such a history under one harness lock).
 
 import (
 	"context"
@@ -63,6 +74,11 @@ type vItem struct {
 	Adm bool
 }
 
+// Channels from vAuxChan up are not channels of the specification: a send to a fresh one is how
+// the harness makes the shard run its idle-writer cleanup (action Reclaim).  The fakes answer
+// them at once and keep them out of every record.
+const vAuxChan = 100
+
 func chanName(c int) string { return "c" + strconv.Itoa(c) }
 func chanOf(name string) int {
 	n, _ := strconv.Atoi(strings.TrimPrefix(name, "c"))
@@ -87,8 +103,10 @@ func vTarget(c int) ca.AuthorityTarget {
 	return ca.AuthorityTarget{ChannelID: ca.ChannelID{ID: chanName(c), Type: vChanType}, LeaderNodeID: vNode, Epoch: 1, LeaderEpoch: 1}
 }
 
-func (it vItem) send() ca.SendBatchItem {
-	return ca.SendBatchItem{Context: context.Background(), Command: ca.SendCommand{
+func (it vItem) send() ca.SendBatchItem { return it.sendCtx(context.Background()) }
+
+func (it vItem) sendCtx(ctx context.Context) ca.SendBatchItem {
+	return ca.SendBatchItem{Context: ctx, Command: ca.SendCommand{
 		FromUID: "u1", ClientMsgNo: keyName(it.K), ChannelID: chanName(it.C), ChannelType: vChanType,
 		Payload: payload(it.P), Topic: "i" + strconv.Itoa(it.ID)}}
 }
@@ -168,6 +186,10 @@ type vAppender struct {
 	rng   func(n int) int // recording mode: seeded choices (mutex protected by caller)
 	failP int             // recording mode: percentage of injected failures
 	lat   int             // recording mode: latency class
+	hold  time.Duration   // recording mode: some requests are held this long inside the store (0 = never)
+	// recording mode: item tag -> context.CancelFunc of the item's SendBatchItem.Context; a request
+	// that is about to be refused cancels some of them (the submitter gives up during the failing call)
+	cancels sync.Map
 
 	mu      sync.Mutex
 	cond    *sync.Cond
@@ -244,9 +266,20 @@ func (a *vAppender) leave() {
 }
 
 func (a *vAppender) AppendBatch(ctx context.Context, req ca.AppendBatchRequest) (ca.AppendBatchResult, error) {
+	c := chanOf(req.ChannelID.ID)
+	if c >= vAuxChan {
+		l := a.logOf(c)
+		l.mu.Lock()
+		seqs := l.storeLocked(req.Messages, req.Attempt)
+		l.mu.Unlock()
+		res := ca.AppendBatchResult{Items: make([]ca.AppendBatchItemResult, len(req.Messages))}
+		for i, m := range req.Messages {
+			res.Items[i] = ca.AppendBatchItemResult{MessageID: m.MessageID, MessageSeq: seqs[i]}
+		}
+		return res, nil
+	}
 	a.enter()
 	defer a.leave()
-	c := chanOf(req.ChannelID.ID)
 	call := &vCall{c: c, att: req.Attempt, req: req, ctx: ctx, release: make(chan vOutcome, 1)}
 	for _, m := range req.Messages {
 		call.tags = append(call.tags, tagOfTopic(m.Topic))
@@ -269,6 +302,9 @@ func (a *vAppender) AppendBatch(ctx context.Context, req ca.AppendBatchRequest) 
 		}
 	} else if !a.gated {
 		a.perturb()
+		if a.hold > 0 && a.rng(6) == 0 {
+			time.Sleep(a.hold) // a storage stall, several times WriterIdleRetention
+		}
 		if a.failP > 0 && a.rng(100) < a.failP {
 			if a.rng(2) == 0 {
 				out.kind = "failBefore"
@@ -304,6 +340,14 @@ func (a *vAppender) AppendBatch(ctx context.Context, req ca.AppendBatchRequest) 
 	default:
 		kind = "ok"
 		seqs = l.storeLocked(req.Messages, req.Attempt)
+	}
+	if !a.gated && kind != "ok" && req.Attempt == 1 {
+		for _, tag := range call.tags {
+			if cancel, ok := a.cancels.Load(tag); ok && a.rng(2) == 0 {
+				a.rec.now(kit.Ev("Cancel", "i", tag)) // recorded before it takes effect
+				cancel.(context.CancelFunc)()
+			}
+		}
 	}
 	a.finish(call, kind, seqs) // inside the log's critical section: file order = log order
 	l.mu.Unlock()
@@ -466,6 +510,9 @@ type vEffects struct {
 }
 
 func (e *vEffects) EnqueuePersistAfter(ctx context.Context, env ca.CommittedEnvelope) {
+	if chanOf(env.ChannelID) >= vAuxChan {
+		return
+	}
 	e.a.enter()
 	defer e.a.leave()
 	call := &vEffCall{c: chanOf(env.ChannelID), tag: tagOfTopic(env.Topic), release: make(chan struct{}, 1)}
@@ -524,6 +571,7 @@ type vCfg struct {
 	Advance  int
 	Pool     int
 	Coalesce time.Duration // <0 disabled, 0 default
+	Ret      time.Duration // WriterIdleRetention, 0 = package default (10 minutes)
 }
 
 type vSUT struct {
@@ -545,7 +593,7 @@ func newSUT(cfg vCfg, rec *vRec, gated bool) (*vSUT, error) {
 		LocalNodeID: vNode, Appender: s.app, Idempotency: s.app, MessageID: &vIDs{},
 		AppendInflightBatchesPerChannel: cfg.Inflight,
 		AuthorityShardCount:             cfg.Shards, AdvancePoolSize: cfg.Advance, EffectPoolSize: cfg.Pool,
-		InboxCoalesceWindow: cfg.Coalesce, Observer: s.obs,
+		InboxCoalesceWindow: cfg.Coalesce, Observer: s.obs, WriterIdleRetention: cfg.Ret,
 	}
 	if cfg.Hw != 99 {
 		opts.ChannelBacklogHighWatermark = cfg.Hw
@@ -688,6 +736,10 @@ type replay struct {
 	stops   map[int]*stopRun
 	nLook   int
 	failed  bool
+	tinyRet bool                       // run with WriterIdleRetention = 1ns: every idle writer is reclaimable at once
+	cancels map[int]context.CancelFunc // item -> cancel of its SendBatchItem.Context
+	gaveUp  map[int]bool               // items whose submitter cancelled (CancelItem)
+	nAux    int
 }
 
 type vioErr struct {
@@ -843,7 +895,17 @@ func (r *replay) run() (err error) {
 		return &infraErr{"behaviour does not start with Init"}
 	}
 	rec := &vRec{}
-	sut, e := newSUT(cfgOf(kit.Map(steps[0].Ev, "cfg")), rec, true)
+	cfg := cfgOf(kit.Map(steps[0].Ev, "cfg"))
+	if r.tinyRet {
+		cfg.Ret = time.Nanosecond
+	}
+	r.cancels, r.gaveUp = map[int]context.CancelFunc{}, map[int]bool{}
+	defer func() {
+		for _, cancel := range r.cancels {
+			cancel()
+		}
+	}()
+	sut, e := newSUT(cfg, rec, true)
 	if e != nil {
 		return &infraErr{"cannot start group: " + e.Error()}
 	}
@@ -964,7 +1026,13 @@ func (r *replay) step(st kit.Step) error {
 			if first > 0 {
 				id = first + j
 			}
-			items[j] = vItem{ID: id, C: c, K: int(kit.Int(m, "k")), P: int(kit.Int(m, "p"))}.send()
+			ctx := context.Background()
+			if id > 0 {
+				var cancel context.CancelFunc
+				ctx, cancel = context.WithCancel(ctx)
+				r.cancels[id] = cancel
+			}
+			items[j] = vItem{ID: id, C: c, K: int(kit.Int(m, "k")), P: int(kit.Int(m, "p"))}.sendCtx(ctx)
 		}
 		fut, err := r.sut.group.SubmitLocal(context.Background(), vTarget(c), items)
 		got, want := submitClass(err), kit.Str(ev, "res")
@@ -1067,6 +1135,36 @@ func (r *replay) step(st kit.Step) error {
 		if !ok {
 			return &infraErr{"released effect did not finish"}
 		}
+	case "CancelItem":
+		// the submitter gives up on the item while its request is parked at the Appender
+		i := int(kit.Int(ev, "i"))
+		cancel := r.cancels[i]
+		if cancel == nil {
+			return &infraErr{fmt.Sprintf("CancelItem(%d): no such item", i)}
+		}
+		r.gaveUp[i] = true
+		cancel()
+	case "Reclaim":
+		// The shard's cleanup cannot be commanded for one channel; what can be done is to make it
+		// run: a first-ever send to another channel of the shard (shard.getOrCreate).  With
+		// WriterIdleRetention = 1ns it drops every writer the code considers idle -- which must be
+		// none but writers that own nothing (Reclaimable).  With the default retention the step is
+		// a no-op, as in the specification.
+		if !r.tinyRet {
+			return nil
+		}
+		r.nAux++
+		c := vAuxChan + r.nAux
+		fut, err := r.sut.group.SubmitLocal(context.Background(), vTarget(c), []ca.SendBatchItem{vItem{ID: 0, C: c, P: 1}.send()})
+		if err != nil {
+			if (r.sut.cfg.Cap != 99 && errors.Is(err, ca.ErrBackpressured)) || (len(r.stops) > 0 && errors.Is(err, ca.ErrRouteNotReady)) {
+				return nil // no admission slot left for the probe / admission closed by Stop: nothing ran
+			}
+			return &infraErr{"reclaim probe was not admitted: " + err.Error()}
+		}
+		if _, ok := waitFuture(fut, vStepWait); !ok {
+			return r.stuck("result of the reclaim probe (a send to a fresh channel of the shard)")
+		}
 	case "StopCall":
 		s := int(kit.Int(ev, "s"))
 		ctx, cancel := context.WithCancel(context.Background())
@@ -1137,6 +1235,9 @@ func (r *replay) compare(st kit.Step, quiescent bool) error {
 					switch g := r.sut.classify(b.c, x); g.T {
 					case "ok", "fail", "busy":
 					case "canceled", "notReady", "backpressured":
+						if g.T == "canceled" && len(r.gaveUp) > 0 { // the item itself or the owner it was coalesced onto
+							continue // compared when the specification has the result
+						}
 						return vio("C41", "result", "item %d (channel %d) was admitted and then answered %s %s", b.first+j, b.c, g.T, g.Err)
 					default:
 						return vio("C29", "result", "item %d (channel %d) was answered %s %s", b.first+j, b.c, g.T, g.Err)
@@ -1158,7 +1259,7 @@ func (r *replay) compare(st kit.Step, quiescent bool) error {
 			w := want[b.first+j-1].(map[string]any)
 			if !kit.Equal(g.proj(), w) {
 				p := "C29"
-				if g.T == "canceled" || g.T == "notReady" || g.T == "backpressured" {
+				if (g.T == "canceled" && len(r.gaveUp) == 0) || g.T == "notReady" || g.T == "backpressured" {
 					p = "C41"
 				}
 				return vio(p, "result", "item %d (position %d of its batch, channel %d) received %s %s; the specification's result is %s",
@@ -1215,9 +1316,22 @@ func (r *replay) compare(st kit.Step, quiescent bool) error {
 		}
 		return cfg.Cap == 99 || o.last.AdmissionDepth == int(kit.Int(sync, "adm"))
 	}
+	started := time.Now()
 	o.mu.Lock()
 	for !settled() {
-		if time.Now().After(deadline) {
+		if late := time.Now().After(deadline); late || time.Since(started) > 2*time.Second {
+			// In a quiescent state every request of the specification has been claimed: a request
+			// parked at the Appender now is one the specification does not issue (the gauges differ
+			// because of it).
+			o.mu.Unlock()
+			if extra := r.unclaimed(); len(extra) > 0 {
+				return vio("C29", "append-not-in-spec", "the Appender holds requests the specification does not issue in this schedule: %v; all requests so far: %s", extra, r.sut.app.callList())
+			}
+			o.mu.Lock()
+			if !late {
+				started = time.Now()
+				continue
+			}
 			last := o.last
 			o.mu.Unlock()
 			return &infraErr{fmt.Sprintf("pressure gauges did not settle: adm/pend/infl = %d/%d/%d, specification %v", last.AdmissionDepth, last.PendingAppendItems, last.AppendInflightItems, sync)}
@@ -1230,8 +1344,21 @@ func (r *replay) compare(st kit.Step, quiescent bool) error {
 	return nil
 }
 
-func runReplay(t *testing.T, rep *kit.Report, prop, name string, beh kit.Behaviour) (reported bool) {
-	r := &replay{t: t, rep: rep, prop: prop, name: name, beh: beh}
+// unclaimed lists the requests parked at the Appender that no step of the behaviour accounted for.
+func (r *replay) unclaimed() []string {
+	r.sut.app.mu.Lock()
+	defer r.sut.app.mu.Unlock()
+	var extra []string
+	for _, c := range r.sut.app.calls {
+		if !c.claimed && !c.ended {
+			extra = append(extra, fmt.Sprintf("channel %d items %v attempt %d", c.c, c.tags, c.att))
+		}
+	}
+	return extra
+}
+
+func runReplay(t *testing.T, rep *kit.Report, prop, name string, beh kit.Behaviour, tinyRet bool) (reported bool) {
+	r := &replay{t: t, rep: rep, prop: prop, name: name, beh: beh, tinyRet: tinyRet}
 	err := r.run()
 	if err == nil {
 		return false
@@ -1299,6 +1426,10 @@ type recSubmitter struct {
 	mu    sync.Mutex
 	futs  []*ca.Future
 	nb    atomic.Int64
+	// serial (histories with a tiny WriterIdleRetention): every SubmitLocal of the history, the
+	// reclaim probes included, runs under this lock, so that a probe's cleanup never falls between
+	// another call's writer lookup and its enqueue (submission order of such a race is undefined)
+	serial *sync.Mutex
 	// stopped is set after a Stop returned nil
 	stopped atomic.Bool
 	late    atomic.Int64 // futures found unfinished after a Stop had returned nil
@@ -1314,8 +1445,14 @@ func (s *recSubmitter) SubmitLocal(ctx context.Context, target ca.AuthorityTarge
 		its[j] = map[string]any{"i": tagOfTopic(cmd.Topic), "k": keyNum(cmd.ClientMsgNo), "p": payNum(string(cmd.Payload))}
 	}
 	b := int(s.nb.Add(1))
+	if s.serial != nil {
+		s.serial.Lock()
+	}
 	callSeq := s.rec.stamp()
 	fut, err := s.sut.group.SubmitLocal(ctx, target, items)
+	if s.serial != nil {
+		s.serial.Unlock()
+	}
 	res := submitClass(err)
 	if err == nil {
 		// an admitted batch takes effect inside the call: recorded at the call
@@ -1392,6 +1529,22 @@ func (t *traffic) pickItem() vItem {
 	}
 }
 
+// oldKeyed returns an earlier item that carries an idempotency key.
+func (t *traffic) oldKeyed() (vItem, bool) {
+	t.mu.Lock()
+	defer t.mu.Unlock()
+	var keyed []vItem
+	for _, it := range t.sent {
+		if it.K != 0 {
+			keyed = append(keyed, it)
+		}
+	}
+	if len(keyed) == 0 {
+		return vItem{}, false
+	}
+	return keyed[t.rng.Intn(len(keyed))], true
+}
+
 func (t *traffic) record(it vItem, r vRes) {
 	t.rec.now(kit.Ev("Result", "i", it.ID, "res", map[string]any{"t": r.T, "mid": r.Mid, "seq": r.Seq}))
 }
@@ -1406,7 +1559,17 @@ func (t *traffic) worker(router *ca.Router, ops int) {
 		if size > 1 && t.rng.Intn(4) == 0 { // the same logical send twice in one batch
 			items[1] = t.newItem(items[0].C, items[0].K, items[0].P)
 		}
-		if t.rng.Intn(2) == 0 {
+		// aimed: a retry of an earlier send next to two fresh sends, the first of which may be given
+		// up by its submitter while the store refuses the request
+		aimed := false
+		if old, ok := t.oldKeyed(); ok && t.rng.Intn(6) == 0 {
+			aimed, size = true, 3
+			items = []vItem{t.newItem(old.C, old.K, old.P), t.newItem(old.C, 0, 1+t.rng.Intn(t.pays)), t.newItem(old.C, t.rng.Intn(t.keys+1), 1+t.rng.Intn(t.pays))}
+			if t.rng.Intn(3) == 0 {
+				items[0], items[1] = items[1], items[0]
+			}
+		}
+		if !aimed && t.rng.Intn(2) == 0 {
 			// Router.SendBatch: several channels in one call
 			in := make([]ca.SendBatchItem, size)
 			for j, it := range items {
@@ -1433,7 +1596,16 @@ func (t *traffic) worker(router *ca.Router, ops int) {
 			in := make([]ca.SendBatchItem, size)
 			for j := range items {
 				items[j].C = c
-				in[j] = items[j].send()
+				// only keyless items get a cancellable context: a keyed one may be coalesced with an
+				// identical send of another caller (e.g. one that came through the Router), which would
+				// then inherit the cancellation
+				if items[j].K == 0 && ((aimed && j < 2) || t.rng.Intn(10) < 3) {
+					ctx, cancel := context.WithCancel(context.Background())
+					t.sut.app.cancels.Store(items[j].ID, cancel)
+					in[j] = items[j].sendCtx(ctx)
+				} else {
+					in[j] = items[j].send()
+				}
 			}
 			fut, err := t.sub.SubmitLocal(context.Background(), vTarget(c), in)
 			if err != nil {
@@ -1474,15 +1646,50 @@ func runTraffic(rep *kit.Report, seed int64, idx int, thorough bool) ([]vEvent, 
 		cfg.Cap = 1 + rng.Intn(3)
 		cfg.Shards = 1
 	}
+	// a third of the histories: WriterIdleRetention of 2 ms, storage stalls of 8 ms, and a prober
+	// that keeps sending to fresh sibling channels of the one shard (each such send runs the shard's
+	// idle-writer cleanup)
+	tiny := rng.Intn(3) == 0
+	if tiny {
+		cfg.Ret, cfg.Shards = 2*time.Millisecond, 1
+	}
 	rec := &vRec{on: true}
 	sut, err := newSUT(cfg, rec, false)
 	if err != nil {
 		return nil, cfg, err
 	}
+	defer sut.app.cancels.Range(func(_, cancel any) bool { cancel.(context.CancelFunc)(); return true })
 	sut.app.rng = rng.Intn
 	sut.app.failP = []int{0, 10, 25}[rng.Intn(3)]
 	sut.app.lat = rng.Intn(3)
 	sub := &recSubmitter{sut: sut, rec: rec}
+	trafficDone := make(chan struct{})
+	var probeWG sync.WaitGroup
+	if tiny {
+		sut.app.hold = 4 * cfg.Ret
+		sub.serial = &sync.Mutex{}
+		probeWG.Add(1)
+		go func() {
+			defer probeWG.Done()
+			for n := 1; ; n++ {
+				select {
+				case <-trafficDone:
+					return
+				default:
+				}
+				c := vAuxChan + n
+				sub.serial.Lock()
+				fut, err := sut.group.SubmitLocal(context.Background(), vTarget(c), []ca.SendBatchItem{vItem{C: c, P: 1}.send()})
+				sub.serial.Unlock()
+				if err == nil {
+					waitFuture(fut, vStuckWait)
+				} else if errors.Is(err, ca.ErrRouteNotReady) {
+					return
+				}
+				time.Sleep(500 * time.Microsecond)
+			}
+		}()
+	}
 	router := ca.NewRouter(ca.RouterOptions{LocalNodeID: vNode, Resolver: vResolver{}, Local: sub, RetryBackoff: 50 * time.Microsecond})
 	tr := &traffic{sut: sut, sub: sub, rec: rec, rng: rng, chans: 1 + rng.Intn(3), keys: 2 + rng.Intn(2), pays: 2}
 	workers := 2 + rng.Intn(3)
@@ -1558,7 +1765,9 @@ func runTraffic(rep *kit.Report, seed int64, idx int, thorough bool) ([]vEvent, 
 	stopWG.Add(1)
 	go stopper()
 	wg.Wait()
+	close(trafficDone)
 	stopWG.Wait()
+	probeWG.Wait()
 	late := int(sub.late.Load())
 	rec.now(kit.Ev("End", "late", late, "stuck", int(tr.stuck.Load())))
 	_ = sut.shutdown()
@@ -1617,6 +1826,12 @@ func writeTrace(rep *kit.Report, rec *kit.Recorder, cfg vCfg, evs []vEvent) {
 			if mid, _ := res["mid"].(int); mid > 0 {
 				res["mid"] = tr(mid)
 			}
+		case "Cancel":
+			i := tr(ev["i"].(int))
+			if i == 0 {
+				continue
+			}
+			ev["i"] = i
 		case "Result":
 			res := ev["res"].(map[string]any)
 			i := tr(ev["i"].(int))
@@ -1699,7 +1914,13 @@ func TestVerifChannelAppend(t *testing.T) {
 		if fin, _ := b.Final.(map[string]any); kit.Str(fin, "scen") != "" {
 			name = "scenario " + kit.Str(fin, "scen")
 		}
-		if runReplay(t, rep, env.Property, name, b) {
+		// Half of the schedules run with WriterIdleRetention = 1ns (the specification's predictions
+		// do not depend on it: reclaiming a writer that owns nothing changes nothing observable).
+		tiny := i%2 == 1 || strings.HasPrefix(name, "scenario reclaim-")
+		if tiny {
+			rep.AddExtra("schedules_with_tiny_writer_retention", 1)
+		}
+		if runReplay(t, rep, env.Property, name, b, tiny) {
 			return
 		}
 		rep.Replayed(len(b.Steps))
